@@ -338,6 +338,14 @@ def complete(ctx: Any) -> List[Ob]:
                 if direct or wrapped:
                     tgt = call_name(inner if direct else inner.args[0])
                     obs.append(ob(R, f, c, f'{n}() blocks until the broadcast task returned by {tgt} has finished (all three transmissions made)', wrapped, f'the task returned by {tgt} is not awaited: {n}() returns before the sequence has been transmitted' if direct else ''))
+    # the blocking `withdraw everything` runs the async routine to its end (close() relies on it: C17.GOODBYE)
+    ua = zc.methods.get('unregister_all_services')
+    if ua is None:
+        raise AnalysisError('anchor vanished: Zeroconf.unregister_all_services')
+    uacfg = cfg_of(ua.node)
+    runs = [n for n in uacfg.nodes if any(call_name(c) == 'run_coro_with_timeout' and c.args and isinstance(c.args[0], ast.Call) and call_name(c.args[0]) == 'async_unregister_all_services' for c in n.calls())]
+    byp_ua = uacfg.must_pass_before_exit(uacfg.entry, lambda n: n in runs) if runs else [uacfg.entry]
+    obs.append(ob(R, ua, runs[0].ast if runs else 'run_coro_with_timeout(self.async_unregister_all_services(), ...)', 'unregister_all_services() blocks until async_unregister_all_services has run (on every path)', bool(runs) and byp_ua is None))
     # the async closing routines wait for the goodbye sequence itself: the coroutine that withdraws every service is the
     # direct operand of an `await`.  Handed to a wrapper that can cancel it (wait_for, a timeout scope, shield-less gather
     # with a deadline) the sequence is cut short whenever it takes longer than the quiet 250 ms -- a registration that
